@@ -56,6 +56,10 @@ def gen_world(rng, i, tier):
         w["ctor"] = rng.pick(["newKeyFile", "newIniFile", "newOpts"])
         secs = [None] + [grammar.token(rng, "]" + c, 1, 6, first_forbid="[" + BLc, inner_blank=True).rstrip(BLc) or "S" for _ in range(rng.randint(1, 3))]
         secs = [s for s in secs if s != "_none_"]
+        if rng.chance(0.12):
+            secs.append("[" + rng.pick(["opt", "x y", "a.b"]))      # a name may start with '[' as long as it does not also end with ']'
+            if rng.chance(0.5):
+                secs.append(secs[-1][1:])                            # ... next to the section of the same name without it
         keys = [grammar.token(rng, BLc + d + c + '"', 1, 6, first_forbid="[") for _ in range(rng.randint(1, 5))]
         keys = [k for k in keys if k != "_none_"] or ["k"]
         sets = []
